@@ -379,8 +379,9 @@ theorem cutovers : upperCut = 1415 ∧ lowerCut = 1415 ∧ nocaseCut1 = 1415 ∧
 theorem upper_shape : allPairs shapeOK 0 toUppercaseU8.toList = true := by decide +kernel
 theorem lower_shape : allPairs shapeOK 0 toLowercaseU8.toList = true := by decide +kernel
 
-/-- a one-byte entry of a non-zero code point is not NUL, a two-byte entry starts with a 2-byte lead C2–DF
-    (no entry is the cut-off beginning of a longer sequence: repaired in b3f3f80) -/
+/-- a one-byte entry of a non-zero code point is not NUL; a two-byte entry is a 2-byte lead C2–DF followed by a
+    continuation byte 80–BF, i.e. well-formed UTF-8 (no entry is the cut-off beginning of a longer sequence:
+    repaired in b3f3f80) -/
 theorem upper_shape2 : allPairs shape2OK 0 toUppercaseU8.toList = true := by decide +kernel
 theorem lower_shape2 : allPairs shape2OK 0 toLowercaseU8.toList = true := by decide +kernel
 
